@@ -164,13 +164,19 @@ pub fn analyze_dir(
             .path();
 
         if file_path.is_dir() {
-            optimization_locations.extend(analyze_dir(
+            //merge the findings of the sub-directory: `extend` would replace the files collected so far
+            for (pattern, mut files) in analyze_dir(
                 file_path
                     .as_os_str()
                     .to_str()
                     .expect("Could not get nested dir"),
                 optimizations.clone(),
-            ))
+            ) {
+                optimization_locations
+                    .entry(pattern)
+                    .or_insert(vec![])
+                    .append(&mut files);
+            }
         } else {
             let file_name = file_path
                 .file_name()
